@@ -153,10 +153,33 @@ def _prune(fdir, config, keep=4):
             pass
 
 
+def _canonical_generic_names(text):
+    """The rules name the ADTs' const generic parameters N (and M for the second one).  If the crate renames
+    them consistently (a behaviour-preserving edit), rename them back textually before parsing."""
+    import re
+    import collections
+    first = collections.Counter(re.findall(r'"self_ty": "(?:[a-z_0-9]+::)*B(?:Uint|Int)(?:D8|D16|D32)?<([A-Za-z_][A-Za-z_0-9]*)>"', text))
+    if not first:
+        return text
+    n = first.most_common(1)[0][0]
+    second = collections.Counter(x for x in re.findall(r'cast::CastFrom<(?:[a-z_0-9]+::)*B(?:Uint|Int)(?:D8|D16|D32)?<([A-Za-z_][A-Za-z_0-9]*)>>', text) if x != n)
+    m = second.most_common(1)[0][0] if second else "M"
+    if n == "N" and m == "M":
+        return text
+    tmp = "\x00GENERIC_N\x00"
+    if n != "N":
+        text = re.sub(r"\b%s\b" % re.escape(n), tmp, text)
+    if m != "M":
+        text = re.sub(r"\b%s\b" % re.escape(m), "M", text)
+    return text.replace(tmp, "N")
+
+
 def load(config, repo=None):
     p = facts_path(config, repo)
     with open(p) as fh:
-        data = json.load(fh)
+        text = fh.read()
+    text = _canonical_generic_names(text)
+    data = json.loads(text)
     nb = len(data["bodies"])
     if repo is None and nb < BODY_FLOOR[config]:
         raise RuntimeError("fact file for %s has %d bodies, below floor %d" % (config, nb, BODY_FLOOR[config]))
